@@ -25,7 +25,7 @@ import (
 	"verifharness/threadgen"
 )
 
-func main() { Main("C18", check, threadgen.Gen) }
+func main() { Main("C18", check, threadgen.Gen, threadgen.GenExpr, threadgen.GenObj) }
 
 const imp = "From Coq Require Import String.\nFrom Sdfx Require Import Sdf.C18Corr.\nOpen Scope float_scope.\nOpen Scope string_scope."
 
@@ -42,6 +42,7 @@ type corpus struct {
 	BoltNut []struct {
 		Thread string     `json:"thread"`
 		Tol    float64    `json:"tol"`
+		TolNut *float64   `json:"tol_nut,omitempty"` // the nut's tolerance when it differs from the bolt's
 		Shift  int        `json:"shift"`
 		P      [3]float64 `json:"p"`
 	} `json:"boltnut"`
@@ -789,7 +790,8 @@ func check(c *Ctx, r *Report) error {
 	}
 
 	// ------------------------------------------------------------ 7. obj.Bolt / obj.Nut
-	boltnut := func(stratum string, g tgeo, tol float64, n int, pts []v3.Vec, npts int) {
+	// tol: the bolt's tolerance, tolN: the nut's (the two generators take them independently)
+	boltnut := func(stratum string, g tgeo, tol, tolN float64, n int, pts []v3.Vec, npts int) {
 		t, err := sdf.ThreadLookup(g.name)
 		if err != nil {
 			return
@@ -797,7 +799,7 @@ func check(c *Ctx, r *Report) error {
 		nhh := t.HexHeight()
 		total := 3*nhh + 6*g.pitch
 		bolt, err1 := obj.Bolt(&obj.BoltParms{Thread: g.name, Style: "hex", Tolerance: tol, TotalLength: total, ShankLength: 0})
-		nut, err2 := obj.Nut(&obj.NutParms{Thread: g.name, Style: "hex", Tolerance: tol})
+		nut, err2 := obj.Nut(&obj.NutParms{Thread: g.name, Style: "hex", Tolerance: tolN})
 		if err1 != nil || err2 != nil {
 			r.Violate("boltnut:"+g.name, fmt.Sprintf("obj.Bolt/obj.Nut fail for %s: %v %v", g.name, err1, err2), g.name)
 			return
@@ -813,7 +815,7 @@ func check(c *Ctx, r *Report) error {
 			if k < len(pts) {
 				p = pts[k]
 			} else {
-				rho := g.r + tol - g.h*rng.Uniform(-0.3, 1.0)
+				rho := g.r + math.Max(tol, tolN) - g.h*rng.Uniform(-0.3, 1.0)
 				switch k % 6 {
 				case 0:
 					rho = g.r * rng.Uniform(0, 2.5)
@@ -824,17 +826,24 @@ func check(c *Ctx, r *Report) error {
 			}
 			a, b := bolt.Evaluate(p), placed.Evaluate(p)
 			key := fmt.Sprintf("boltnut:%s,%x,%d|%s", g.name, tol, n, pkey(p))
+			if tolN != tol {
+				key = fmt.Sprintf("boltnut:%s,%x/%x,%d|%s", g.name, tol, tolN, n, pkey(p))
+			}
 			r.Case(stratum, key, true)
 			if a < -delta && b < -delta {
-				r.Violate(key, fmt.Sprintf("obj.Bolt and obj.Nut for %s (tolerance %v, nut %d pitches from the middle of the thread): the point %v is %v inside the bolt and %v inside the nut", g.name, tol, n, p, -a, -b),
-					map[string]interface{}{"thread": g.name, "tol": tol, "shift": n, "p": []float64{p.X, p.Y, p.Z}})
+				r.Violate(key, fmt.Sprintf("obj.Bolt and obj.Nut for %s (bolt tolerance %v, nut tolerance %v, nut %d pitches from the middle of the thread): the point %v is %v inside the bolt and %v inside the nut", g.name, tol, tolN, n, p, -a, -b),
+					map[string]interface{}{"thread": g.name, "tol": tol, "tol_nut": tolN, "shift": n, "p": []float64{p.X, p.Y, p.Z}})
 				return
 			}
 		}
 	}
 	for _, e := range cp.BoltNut {
 		if t, err := sdf.ThreadLookup(e.Thread); err == nil {
-			boltnut("boltnut/corpus", geo(t), e.Tol, e.Shift, []v3.Vec{{X: e.P[0], Y: e.P[1], Z: e.P[2]}}, 0)
+			tn := e.Tol
+			if e.TolNut != nil {
+				tn = *e.TolNut
+			}
+			boltnut("boltnut/corpus", geo(t), e.Tol, tn, e.Shift, []v3.Vec{{X: e.P[0], Y: e.P[1], Z: e.P[2]}}, 0)
 		}
 	}
 	nb := TierN(c.Tier, 10, len(geos), 24)
@@ -848,7 +857,12 @@ func check(c *Ctx, r *Report) error {
 				tp = "straight"
 			}
 			for _, n := range shifts {
-				boltnut("boltnut/"+tp, g, tol, n, nil, TierN(c.Tier, 150, 1500, 500))
+				boltnut("boltnut/"+tp, g, tol, tol, n, nil, TierN(c.Tier, 150, 1500, 500))
+			}
+			if tol > 0 {
+				// the two generators take their tolerance independently: only one of them loosened
+				boltnut("boltnut/"+tp+"/bolt-only", g, tol, 0, shifts[0], nil, TierN(c.Tier, 150, 1500, 500))
+				boltnut("boltnut/"+tp+"/nut-only", g, 0, tol, shifts[0], nil, TierN(c.Tier, 150, 1500, 500))
 			}
 		}
 	}
@@ -988,13 +1002,14 @@ func check(c *Ctx, r *Report) error {
 	r.Coverage["database_keys"] = len(names)
 	r.Rule = "every database key (ThreadLookup, ToMillimetre) bit-exact against the row regenerated from the source and against the designation (M<d>x<P> parsed; ASME B1.1 / B1.20.1 reference tables); SawTooth on dyadic / multiple-of-period / next-to-the-jump / random arguments; the helical mapping observed through a recording probe profile (on the axis, theta = +-pi, end planes, dyadic, far outside, thread zone; starts 0, +-1..+-4; straight and NPT-tapered; invalid constructor arguments); ISOThread profile and full Screw3D values near flanks / crests / roots / strip edges against the Gallina model; helix invariance, z-periodicity, handedness on long screws; mating of external radius-tol against the nut material of internal radius+tol for every row x tolerances {0, 1%, 25%, 100% of the pitch}; obj.Bolt against obj.Nut placed whole pitches along the thread; HISTORIES: interleaved calls of every obj generator that looks a thread up (ThreadedCylinder, Nut, Bolt; hex/knurl; metric, unified, pipe designations; tolerances > 0 and 0; several rounds), after every call every database key bit-identical (entry, hex sizes, ToMillimetre, ToMillimetre twice) to the snapshot of the fresh database, and the database after the histories through the db correspondence again. non-trivial = every case; distinct by exact input bits."
 	r.Trusted = append(r.Trusted,
-		"translator harness/threadgen (go/parser + go/constant): rows and the Add/ToMillimetre field expressions of sdf/screw.go -> coq/Generated/Threads.v on every run",
-		"hand model coq/Sdf/Screw.v (SawTooth, Screw3D, ScrewSDF3.Evaluate, Polygon smoothing, ISOThread, exhaustive polygon distance) tied by differential execution at FOps: mapping bit-exact, profile/screw values within 1e-10*(radius+pitch) because Polygon2D walks a quadtree of clipped segments",
+		"translator harness/threadgen (go/parser + go/constant, symbolic execution of loop-free Go: helpers followed, locals / keyed literals / named constants / table-driven loops normalised away): rows and the Add/ToMillimetre bodies of sdf/screw.go -> coq/Generated/Threads.v; SawTooth, DtoR, Screw3D, ScrewSDF3.Evaluate, ISOThread -> coq/Generated/ThreadExpr.v, proved equal to the hand model for all arguments in any number system (Sdf/ScrewEq.v); the construction of obj.Nut / obj.Bolt -> coq/Generated/ObjThread.v (calls returning (shape, error) taken to succeed) - all on every run",
+		"hand model coq/Sdf/Screw.v: SawTooth, Screw3D, ScrewSDF3.Evaluate, ISOThread vertex list are the translated source (theorems) AND run against the implementation at FOps (mapping bit-exact); Polygon smoothing (sdf/poly.go), the exhaustive polygon distance (sdf/mesh2.go) and pvn/pvs (Polygon.Add / Smooth) stay tied by differential execution only: profile/screw values within 1e-10*(radius+pitch) because Polygon2D walks a quadtree of clipped segments",
 		"Coq port of Go math (coq/Num/GoMath.v): sqrt, atan, atan2, tan, sin, cos, acos, floor, max",
 		"reference tables ASME B1.1 (UNC/UNF) and B1.20.1 (NPT) typed in coq/Sdf/ThreadDB.v and in the harness")
 	r.Assumptions = append(r.Assumptions,
 		"the 2D profile SDF is negative exactly inside its polygon (C04's subject); mating is proved for the polygons",
 		"mating and helix theorems are over the reals; with tolerance 0 the flanks coincide and float64 rounding can make them interpenetrate by ~1e-16*size - measured against delta = 1e-9*(radius+pitch), not proved",
-		"bolt and nut share the axis and the thread phase (nut displaced by whole pitches; tapered threads not towards the thick end)")
+		"bolt and nut share the axis and the thread phase (nut displaced by whole pitches; tapered threads not towards the thick end)",
+		"obj-level mating theorem (C18_obj_nut_bolt_mate): HexHead3D / KnurledHead3D / Cylinder3D / ChamferedCylinder are opaque; assumed: the nut body lies between the planes z = +-height/2 (second argument), ChamferedCylinder(s, ..) is contained in s (it returns Intersect3D(s, cc)); both sampled by the bolt/nut oracle of this run")
 	return nil
 }
